@@ -126,7 +126,7 @@ func parent(r *core.Run) {
 	if os.Getenv("VERIF_ONLY") != "" || os.Getenv("C09_PROBE") != "" {
 		return
 	}
-	nl, no := int64(18), int64(len(unaryOps()))
+	nl, no := int64(20), int64(len(unaryOps()))
 	d2 := nl + nl*no + nl*nl                // depth <= 2
 	d3 := d2 + (d2-nl)*no + (d2*d2 - nl*nl) // depth <= 3
 	bound := d3
